@@ -197,7 +197,7 @@ func Replay(w *World, r *FnResult, o *Obligation, repo, tmp string) *ReplayResul
 		sr = w.Solve(c, base, 20, qt)
 	}
 	if sr.Status != "sat" || len(sr.Ordered) != len(qt) {
-		res.Note = fmt.Sprintf("could not obtain model values (status %s, %d/%d values)", sr.Status, len(sr.Ordered), len(qt))
+		res.Note = fmt.Sprintf("could not obtain model values (status %s, %d/%d values): %s", sr.Status, len(sr.Ordered), len(qt), firstN(sr.Raw, 300))
 		return res
 	}
 	var pins []*Term
@@ -360,6 +360,7 @@ func statusOf(o *Obligation) string {
 
 func usedNames(ts []*Term) map[string]bool {
 	used := map[string]bool{}
+	bound := map[string]bool{}
 	seen := map[*Term]bool{}
 	var rec func(t *Term)
 	rec = func(t *Term) {
@@ -370,12 +371,20 @@ func usedNames(ts []*Term) map[string]bool {
 		if t.Op == "var" || t.Op == "app" {
 			used[t.Name] = true
 		}
+		if t.Op == "forall" {
+			for i := 0; i < t.P[0]; i++ {
+				bound[t.Args[i].Name] = true
+			}
+		}
 		for _, a := range t.Args {
 			rec(a)
 		}
 	}
 	for _, t := range ts {
 		rec(t)
+	}
+	for n := range bound {
+		delete(used, n)
 	}
 	return used
 }
